@@ -164,7 +164,7 @@ def main(argv: Optional[List[str]] = None) -> int:
         k = match_known(f, known)
         if k is not None:
             known_matched.append(f.key)
-            print(f"KNOWN-FINDING: property={pid} {k.get('what', f.message)} [{f.rule} {f.file}::{f.func}]")
+            print(f"KNOWN-FINDING: property={pid} {k.get('what', f.message)} [{f.rule} {f.file}::{f.func} :: {f.construct[:100]}]")
         else:
             violations.append(f)
     for a in ctx.advisories:
